@@ -57,6 +57,7 @@ fn show_meta_v(m: &HashMap<String, String>) -> String {
 }
 
 pub struct Built {
+    pub srv: Option<crate::srvinc::drive::Srv>,
     pub engine: Arc<TieredEngine>,
     _dir: Option<tempfile::TempDir>,
 }
@@ -84,7 +85,23 @@ pub fn build(persist: bool, snap: usize, rot: u64) -> Built {
         config,
     )
     .expect("engine");
-    Built { engine: Arc::new(engine), _dir: dir }
+    Built { srv: None, engine: Arc::new(engine), _dir: dir }
+}
+
+/// world=srv: the real RPC handlers (`srvinc.rs`) over a fresh in-memory engine
+pub fn build_srv(limits: &[usize]) -> Built {
+    let srv = crate::srvinc::drive::build(limits);
+    let engine = crate::srvinc::drive::engine_of(&srv);
+    Built { srv: Some(srv), engine, _dir: None }
+}
+
+const SRV_WARMUP: &[&str] = &["sins:0:90:9", "sq:0:90", "sum:0:90:8", "sdel:0:90", "sins:0:91:7", "sbd:0:91,92", "sdel:0:93"];
+
+fn apply_any(b: &Built, op: &str) -> String {
+    match (&b.srv, op.starts_with('s') && op != "snap" && op != "stats") {
+        (Some(s), true) => crate::srvinc::drive::apply(s, op),
+        _ => apply(&b.engine, op),
+    }
 }
 
 /// one operation on the engine; returns its result in canonical text
@@ -147,6 +164,7 @@ pub fn apply(e: &TieredEngine, op: &str) -> String {
 }
 
 struct Program {
+    limits: Option<Vec<usize>>,
     threads: Vec<Vec<String>>,
     persist: bool,
     snap: usize,
@@ -161,27 +179,30 @@ fn parse_program(fs: &Fields) -> Program {
             threads.push(t.split(';').map(|s| s.to_string()).collect());
         }
     }
+    let limits = field(fs, "limits").map(|s| s.split(',').filter_map(|x| x.parse().ok()).collect::<Vec<usize>>());
+    let default_warm: Vec<String> = if limits.is_some() { vec![] } else { vec!["ins:1:1".into(), "ins:2:2".into(), "q:1".into(), "flush".into(), "ins:2:3".into()] };
     Program {
+        limits,
         threads,
         persist: boolean(fs, "persist").unwrap_or(false),
         snap: nat(fs, "snap").unwrap_or(0) as usize,
         rot: nat(fs, "rot").unwrap_or(0),
-        warm: field(fs, "warm").map(|s| s.split(';').map(|x| x.to_string()).collect()).unwrap_or_else(|| vec!["ins:1:1".into(), "ins:2:2".into(), "q:1".into(), "flush".into(), "ins:2:3".into()]),
+        warm: field(fs, "warm").map(|s| s.split(';').map(|x| x.to_string()).collect()).unwrap_or(default_warm),
     }
 }
 
 type Hist = Arc<Mutex<Vec<(usize, usize, String, String)>>>; // (thread, op index, op, result)
 
-fn bodies(p: &Program, built: &Built, hist: &Hist) -> Vec<Box<dyn FnOnce() + Send + 'static>> {
+fn bodies(p: &Program, built: &Arc<Built>, hist: &Hist) -> Vec<Box<dyn FnOnce() + Send + 'static>> {
     let mut v: Vec<Box<dyn FnOnce() + Send + 'static>> = vec![];
     for (t, ops) in p.threads.iter().enumerate() {
-        let e = built.engine.clone();
+        let e = built.clone();
         let ops = ops.clone();
         let h = hist.clone();
         v.push(Box::new(move || {
             for (i, op) in ops.iter().enumerate() {
                 sched::mark(format!("inv {} {}", i, op));
-                let r = apply(&e, op);
+                let r = apply_any(&e, op);
                 sched::mark(format!("ret {} {}", i, r));
                 h.lock().unwrap().push((t, i, op.clone(), r));
             }
@@ -242,22 +263,32 @@ pub fn run() {
                 let mut deadlock: Option<(String, Vec<usize>)> = None;
                 let mut steps = 0usize;
                 let mut runs = 0usize;
-                let mut keep: Vec<Built> = vec![];
+                let mut keep: Vec<Arc<Built>> = vec![];
                 let mut finals: BTreeSet<String> = BTreeSet::new();
                 let mut one = |prefix: Vec<usize>, rnd: Option<u64>| -> (sched::Outcome, String) {
-                    let built = build(p.persist, p.snap, p.rot);
+                    let built = Arc::new(match &p.limits {
+                        Some(l) => build_srv(l),
+                        None => build(p.persist, p.snap, p.rot),
+                    });
                     // deterministic warm-up: names every lock by first acquisition and leaves documents 1 and 2 behind
                     sched::begin_naming();
                     for w in NAMING_WARMUP {
                         let _ = apply(&built.engine, w);
                     }
+                    if built.srv.is_some() {
+                        for w in SRV_WARMUP {
+                            let _ = apply_any(&built, w);
+                        }
+                    }
                     for w in &p.warm {
-                        let _ = apply(&built.engine, w);
+                        let _ = apply_any(&built, w);
                     }
                     let names = sched::end_naming();
                     let hist: Hist = Arc::new(Mutex::new(vec![]));
                     let out = sched::run_named(bodies(&p, &built, &hist), prefix, rnd, &names);
-                    let fin = if out.deadlock.is_none() {
+                    let fin = if out.deadlock.is_none() && built.srv.is_some() {
+                        crate::srvinc::drive::final_state(built.srv.as_ref().unwrap())
+                    } else if out.deadlock.is_none() {
                         // final state as a sequential observer sees it
                         let mut ids: Vec<u64> = built.engine.cold_tier().scan(|_| true);
                         ids.sort_unstable();
